@@ -10,7 +10,7 @@ deliveries only from members and only with the true source, at most one CONNECTE
 'connected' notifications only with a CONNECTED registered connection, and - after a fault-free tail - every pair
 connected again within connectionRetryTime + 4 rounds.
 """
-PROPERTIES = ["C14", "C18"]
+PROPERTIES = ["C14", "C18", "C13"]
 ORDER = 50
 
 import glob
@@ -644,7 +644,82 @@ FLOORS = ["tick", "accept", "connected", "connected.sendfail", "deliver.data", "
           "stranger.arb.NoneType", "heal"]
 
 
+C13_SIGNATURES = ("transport.poll:exception-escapes-event-loop", "transport.deliver:complete-message-not-delivered-once")
+
+
+def directed_c13():
+    """Plan for C13 (framing as the transport uses it): merged reads - the introduction frame and the frames behind it
+    in ONE read pass (the handler is replaced from inside the handler of the first frame), in both directions, for a
+    member and for a read-only node, with the introduction itself torn into fragments; a large frame in fragments;
+    garbage first frames.  (The key-exchange variant needs `cryptography`, which this image does not have.)"""
+    S = []
+    base = {"n": 2, "retry": 2048, "timeout": 4096}
+    pre = [["tick", 0, []], ["tick", 1, []], ["syn_ok*", 1, 0], ["accept", 0], ["cev*", 1, 0, False, False]]
+    for nmsg in (1, 3):
+        burst = [["send", 1, ["tcp", 0], 10 + k, False, False] for k in range(nmsg)]
+        back = [["send", 0, ["tcp", 1], 20 + k, False, False] for k in range(nmsg)]
+        S.append(("merged-introduction-%d" % nmsg, base, pre + burst + [["dlv*", 1, 0, 0, 99]] + back +
+                  [["dlv*", 1, 0, 1, 99]]))
+        S.append(("torn-introduction-%d" % nmsg, base, pre + burst + [["frag*", 1, 0, 0, 5], ["frag*", 1, 0, 0, 9],
+                                                                      ["dlv*", 1, 0, 0, 99]]))
+    ro = {"n": 2, "retry": 512, "timeout": 4096, "readonly": [1]}
+    S.append(("merged-readonly-introduction", ro, pre + [["send", 1, ["tcp", 0], 30, False, False],
+                                                         ["send", 1, ["tcp", 0], 31, False, False], ["dlv*", 1, 0, 0, 99],
+                                                         ["send", 0, ["ro", 0], 32, False, False], ["dlv*", 1, 0, 1, 99]]))
+    hs = [["tick", 0, []], ["tick", 1, []], ["sconn", 0], ["accept", 0]]
+    S.append(("stranger-merged", base, hs + [["ssend", 0, ["util", 1]], ["ssend", 0, ["addr", 1]], ["ssend", 0, ["unhash", 4]],
+                                             ["ssend", 0, ["unhash", 5]], ["dlv", 0, 0, 99, False, False]]))
+    for idx in range(len(tf.ARB)):
+        S.append(("garbage-first-frame-%d" % idx, base, hs + [["ssend", 0, ["arb", idx]], ["ssend", 0, ["unhash", 9]],
+                                                               ["dlv", 0, 0, 99, False, False]]))
+    for name, cfg, actions in directed():
+        if name.startswith("slow-link") or name == "handshake-batch":
+            S.append((name, cfg, actions))
+    return S
+
+
+def run_c13(ctx):
+    """C13 run: monitors on the real code only (no model diff), only the signatures that state C13, a few seconds."""
+    t0 = time.time()
+    rng = ctx.rng("transport_registry.c13")
+    violations, cov, cases, events, hashes = [], {}, 0, 0, set()
+    scripts = [(n, c, a) for n, c, a in directed_c13()]
+    for k in range(ctx.scale(12, 200)):
+        scripts.append(("random:%d" % k, random_cfg(rng), None))
+    for name, cfg, actions in scripts:
+        if time.time() - t0 > ctx.scale(5, 60):
+            break
+        r = None
+        try:
+            r = Runner(ctx.repo, None, dict(cfg), diff=False)
+            if actions is None:
+                random_schedule(rng, r, ctx.scale(80, 150))
+            else:
+                run_actions(r, actions)
+            for v in r.violations:
+                if v["signature"] in C13_SIGNATURES and v["signature"] not in [x["signature"] for x in violations]:
+                    v["case"] = name
+                    violations.append(v)
+            cases += 1
+            events += len(r.trace)
+            hashes.add(hashlib.sha1(json.dumps([cfg, r.trace], sort_keys=True).encode()).hexdigest())
+            for k2, c in r.sim.cov.items():
+                cov[k2] = cov.get(k2, 0) + c
+        finally:
+            if r is not None:
+                r.close()
+    res = {"cases": cases, "distinct": len(hashes), "coverage": {"events": events, "counters": dict(sorted(cov.items()))},
+           "samples": [], "disagreements": [], "violations": violations, "wall_s": round(time.time() - t0, 2)}
+    missing = [f for f in ("deliver.merged-with-introduction", "deliver.fragment", "deliver.continues-partial-frame",
+                           "stranger.arb.dict", "guard.c13.none") if f != "guard.c13.none" and not cov.get(f)]
+    if missing and not violations:
+        res["inconclusive"] = "coverage floor missed: " + ", ".join(missing)
+    return res
+
+
 def run(ctx):
+    if getattr(ctx, "pid", "") == "C13":
+        return run_c13(ctx)
     t0 = time.time()
     rng = ctx.rng("transport_registry")
     drv = checklib.DriverProc("transport")
@@ -701,6 +776,9 @@ def run(ctx):
         # 2. systematic enumerator
         for name, cfg, actions in directed():
             one("directed:" + name, dict(cfg), lambda r, actions=actions: run_actions(r, actions))
+        for name, cfg, actions in directed_c13():
+            if name.startswith(("merged", "torn", "stranger-merged")):
+                one("directed:" + name, dict(cfg), lambda r, actions=actions: run_actions(r, actions))
         # 3. seeded random schedules, each ending in the fair tail
         c18 = getattr(ctx, "pid", "") == "C18"      # for C18 only worlds with read-only nodes, smaller budget
         nsched = ctx.scale(25, 400) if c18 else ctx.scale(60, 1500)
@@ -727,6 +805,8 @@ def search(ctx, unproved):
     """Looks for a concrete failing input on the real code: the directed fault scripts and a longer random run, with
     only the property monitors deciding (the model diff is ignored here)."""
     found = []
+    if getattr(ctx, "pid", "") == "C13":
+        return found               # the C13 run already is monitor-only; nothing more to search
     rng = ctx.rng("transport_registry.search")
     drv = None
     try:
